@@ -51,6 +51,9 @@ func HandoverRandom(outFile string, seed int64, n, depth int, o HandoverOpts) (i
 	defer w.Close()
 	for run := 1; run <= n; run++ {
 		if err := handoverHistory(w, seed*100003+int64(run), run, depth, o); err != nil {
+			if _, halted := err.(*HaltError); halted {
+				continue // the trace holds the events that no specification action explains
+			}
 			return w.N, fmt.Errorf("run %d: %w", run, err)
 		}
 	}
@@ -290,7 +293,7 @@ func (d *hoDriver) height() error {
 	}
 	feedMempool()
 
-	round := 0
+	round, stuck, halts := 0, 0, 0
 	var proposal [][]byte
 	for {
 		// ---- prepare (possibly under an engine fault)
@@ -338,6 +341,12 @@ func (d *hoDriver) height() error {
 				}
 			}
 			round++
+			if fault == "none" {
+				stuck++
+				if stuck >= 3 { // no proposal can be built on a healthy engine: logged (every such `prepare` is rejected); the history ends
+					return &HaltError{Height: h, Err: fmt.Errorf("no honest proposal could be built on a well-behaved engine in %d rounds", stuck)}
+				}
+			}
 			continue
 		}
 		proposal = pp.Txs
@@ -440,6 +449,12 @@ func (d *hoDriver) height() error {
 				return err
 			}
 			feedMempool()
+			if endNp == "VALID" && endFcu == "VALID" {
+				halts++
+				if halts >= 2 { // FinalizeBlock fails on a healthy engine, again after the restart: the chain cannot go on
+					return &HaltError{Height: h, Err: ferr}
+				}
+			}
 			continue
 		}
 		msgOk := res.TxResults[0].Code == 0
